@@ -69,6 +69,13 @@ def per_item_corpus():
         ("all", lambda: E("li", attrs=[("title", "orig")],
                          tal={"repeat": "f m", "content": "f/t | default", "attributes": "title f/t | default",
                               "omit-tag": "f/t | nothing"}, children=[T("(untitled)")])),
+        # the same statements on a CHILD of the repeating element: executed once per iteration from the element's template
+        # attributes / children (nothing an earlier iteration computed may be left)
+        ("child-attributes", lambda: E("li", tal={"repeat": "f m"}, children=[
+            E("a", attrs=[("href", "#none"), ("id", "i")], tal={"attributes": "href f/t | default; id f/t | nothing"}, children=[T("x")])])),
+        ("child-all", lambda: E("li", tal={"repeat": "f m"}, children=[
+            E("a", attrs=[("title", "orig")], tal={"content": "f/t | default", "attributes": "title f/t | default",
+                                                  "omit-tag": "f/t | nothing"}, children=[T("(untitled)")]), T(";")])),
     ]
     out = []
     for order in itertools.product("VND", repeat=3):
@@ -79,6 +86,81 @@ def per_item_corpus():
     out.append(("per-item-nested", [E("dl", tal={"repeat": "g groups"},
                                       children=[E("dt", tal={"repeat": "f g", "content": "f/t | default"}, children=[T("?")])])],
                 {"groups": groups}))
+    return out
+
+
+def chain_corpus():
+    """Exhaustive small cases: ONE tal:define with two or three definitions where each later definition is computed from the
+    variable the previous one has just bound — every local/global combination x the first name fresh / re-binding the
+    context variable it reads / shadowing a variable of an enclosing define / shadowing an enclosing loop variable x the
+    statement that consumes the last name (content, attributes, condition, repeat on the same element; a child element);
+    a probe after the element shows what is left (locals gone, globals kept, the enclosing binding back)."""
+    import itertools
+    E, T = talgen.Elem, talgen.Text
+    leaf = ["d", [["k", ["s", "innermost"]]]]
+    mid = ["d", [["k", ["s", "inner"]], ["sub", leaf]]]
+    doc = ["d", [["k", ["s", "top"]], ["sub", mid]]]
+    other = ["d", [["k", ["s", "other"]], ["sub", ["d", [["k", ["s", "other-inner"]], ["sub", leaf]]]]]]
+    ctx = {"doc": doc, "docs": ["l", [doc, other]]}
+    out = []
+    for k0, k1, shadow, use, three in itertools.product(("", "global "), ("local ", "global "),
+                                                        ("fresh", "self", "outer-define", "outer-repeat"),
+                                                        ("content", "attributes", "condition", "repeat", "child"), (False, True)):
+        if three and use not in ("content", "repeat"):
+            continue
+        a, src = ("doc", "doc/sub") if shadow == "self" else ("d", "doc/sub" if shadow == "fresh" else "d/sub")
+        parts = ["%s%s %s" % (k0, a, src)]
+        if three:
+            parts.append("m %s/sub" % a)
+            parts.append("%st m/k" % k1)
+        else:
+            parts.append("%st %s/k" % (k1, a))
+        tal = {"define": "; ".join(parts)}
+        kids = [T("x")]
+        if use == "content":
+            tal["content"] = "t"
+        elif use == "attributes":
+            tal["attributes"] = "title t; alt attrs/title"
+        elif use == "condition":
+            tal["condition"] = "t"
+        elif use == "repeat":
+            tal.update({"repeat": "c t", "content": "c"})
+        else:
+            kids = [E("b", tal={"replace": "string:${%s/k}/${t}" % a}, children=[T("y")])]
+        e = E("p", attrs=[("title", "orig")], tal=tal, children=kids)
+        after = E("i", tal={"content": "string:${t | string:no-t}/${%s/k | string:no-%s}" % (a, a)}, children=[T("z")])
+        nodes = [e, after]
+        if shadow == "outer-define":
+            nodes = [E("div", tal={"define": "d doc"}, children=[e, after])]
+        elif shadow == "outer-repeat":
+            nodes = [E("div", tal={"repeat": "d docs"}, children=[e, after])]
+        name = "chain-%s%s-%s-%s-%d" % ((k0 or "local ")[0], k1[0], shadow, use, 3 if three else 2)
+        out.append((name, nodes, ctx))
+    return out
+
+
+def semi_corpus():
+    """Exhaustive small cases: the escaped semicolon `;;` at every position of a tal:define / tal:attributes statement list —
+    at the start, in the middle and at the END of an expression, doubled, in the first / the last / the only statement of the
+    list, the list followed by blanks.  (`;;` is a literal `;` of the expression, a single `;` separates statements.)"""
+    E, T = talgen.Elem, talgen.Text
+    out = []
+    lits = [";", "a;", ";a", "a;b", ";;", "a;;", "c:d; e:f;", "go(1);"]
+    for li, lit in enumerate(lits):
+        ex = talgen.esc_semi("string:" + lit)
+        for pos in ("only", "first", "last"):
+            for tail in ("", " ", "  "):
+                if tail and pos == "first":
+                    continue
+                for stmt in ("define", "attributes"):
+                    a, b = ("x", "y") if stmt == "define" else ("title", "alt")
+                    mine, other = "%s %s" % (a, ex), "%s s1" % b
+                    arg = {"only": mine, "first": mine + " ; " + other, "last": other + "; " + mine}[pos] + tail
+                    tal = {stmt: arg}
+                    if stmt == "define":
+                        tal["content"] = "string:[${x}][${y | string:-}]"
+                    nodes = [E("p", attrs=[("title", "orig")], tal=tal, children=[T("d")])]
+                    out.append(("semi-%d-%s-%d-%s" % (li, pos, len(tail), stmt), nodes, {"s1": ["s", "S;1"]}))
     return out
 
 
@@ -157,7 +239,16 @@ def run(tier):
         trees.append((nodes, None))
     for name, nodes, ctx in per_item_corpus():
         cases.append({"id": len(cases), "main": talgen.serialize(nodes), "lib": None, "ctx": ctx, "options": tc.OPTIONS_SPEC,
-                      "allow_python": 0, "want": ["prog", "trace", "events"], "corpus": name})
+                      "allow_python": 0, "want": ["prog", "events"] + ([] if name.startswith("per-item-child-") else ["trace"]),
+                      "corpus": name})
+        trees.append((nodes, None))
+    for name, nodes, ctx in chain_corpus():
+        cases.append({"id": len(cases), "main": talgen.serialize(nodes), "lib": None, "ctx": ctx, "options": tc.OPTIONS_SPEC,
+                      "allow_python": 0, "want": ["prog", "events"] + ([] if name.endswith("-3") else ["trace"]), "corpus": name})
+        trees.append((nodes, None))
+    for name, nodes, ctx in semi_corpus():
+        cases.append({"id": len(cases), "main": talgen.serialize(nodes), "lib": None, "ctx": ctx, "options": tc.OPTIONS_SPEC,
+                      "allow_python": 0, "want": ["prog", "events"], "corpus": name})
         trees.append((nodes, None))
     n_corpus = len(cases)
     while len(cases) < n_templates + n_corpus:
@@ -446,7 +537,10 @@ def run(tier):
                      "command_set_examples": sorted(cmdsets.items(), key=lambda kv: -kv[1])[:12],
                      "grammar_exclusions": tc.GRAMMAR_EXCLUSIONS}
     cov["rule"] = ("templates from a TAL grammar (nesting depth <= %d; every subset of define/condition/repeat/content|replace/"
-                   "attributes/omit-tag per element in shuffled attribute order; local/global defines; nested repeats; "
+                   "attributes/omit-tag per element in shuffled attribute order; local/global defines; multi-part defines whose "
+                   "later definitions read variables bound by earlier ones of the same statement (fresh names, names shadowing "
+                   "context variables / enclosing defines / loop variables, local-global mixes: random chains + an exhaustive "
+                   "small corpus); nested repeats; "
                    "structure/text keywords; METAL define-macro/use-macro/define-slot/fill-slot incl. a second template as "
                    "macro library) x contexts (strings with markup metacharacters, numbers, empty/non-empty sequences, "
                    "mappings, None, callables); real compileHTMLTemplate + expand vs an independent tree-walking reference "
